@@ -78,7 +78,11 @@ var marshalStrings = []string{
 	"org.apache.cassandra.db.marshal.ColumnToCollectionType()", "org.apache.cassandra.db.marshal.ColumnToCollectionType(zz:org.apache.cassandra.db.marshal.ListType)",
 	"org.apache.cassandra.db.marshal.CompositeType(org.apache.cassandra.db.marshal.ReversedType())", "(", ")", ",", "a(b(c(d(e(f(g(h))))))))", "org.apache.cassandra.db.marshal.MapType(org.apache.cassandra.db.marshal.UTF8Type)",
 	"org.apache.cassandra.db.marshal.UserType()", "org.apache.cassandra.db.marshal.UserType(ks)", "org.apache.cassandra.db.marshal.TupleType()", "org.apache.cassandra.db.marshal.ListType()",
-	"org.apache.cassandra.db.marshal.CompositeType(org.apache.cassandra.db.marshal.UTF8Type,org.apache.cassandra.db.marshal.UTF8Type,org.apache.cassandra.db.marshal.UTF8Type)", "\x00("}
+	"org.apache.cassandra.db.marshal.CompositeType(org.apache.cassandra.db.marshal.UTF8Type,org.apache.cassandra.db.marshal.UTF8Type,org.apache.cassandra.db.marshal.UTF8Type)", "\x00(",
+	// class names that merely begin like a parameterised class
+	"org.apache.cassandra.db.marshal.ListTypeV2", "org.apache.cassandra.db.marshal.MapType2(org.apache.cassandra.db.marshal.UTF8Type)", "org.apache.cassandra.db.marshal.CompositeTypeX",
+	"org.apache.cassandra.db.marshal.CompositeType(org.apache.cassandra.db.marshal.UTF8Type,org.apache.cassandra.db.marshal.ColumnToCollectionTypeX(org.apache.cassandra.db.marshal.Int32Type))",
+	"org.apache.cassandra.db.marshal.SetTypeX()", "org.apache.cassandra.db.marshal.TupleTypes", "org.apache.cassandra.db.marshal.UserTypeX(ks)", "org.apache.cassandra.db.marshal.ReversedType2", "org.apache.cassandra.db.marshal.FrozenTypeX(a)"}
 
 var jsonStrings = []string{`[]`, `["k"]`, `["a","b"]`, `["a","b","c","d"]`, `{}`, `{"replication_factor":"1"}`, `{"dc1":"3","dc2":"x"}`, `null`, ``, `[`, `{"a":1}`, `[1,2]`, `"s"`, `[null]`, `{"a":{"b":[]}}`}
 
@@ -134,7 +138,7 @@ func schemaCell(tp *kernel.Tape, proto int, spec cqlspec.ColSpec, row int) cqlsp
 			cells = append(cells, cqlspec.Cell{Bytes: cqlspec.EncText("class")}, cqlspec.Cell{Bytes: cqlspec.EncText(cls)})
 			for i := tp.Next(3); i > 0; i-- {
 				k := []string{"replication_factor", "dc1", "dc2", ""}[tp.Next(4)]
-				v := []string{"1", "3", "", "x", "-1", "99999999999999999999"}[tp.Next(6)]
+				v := []string{"1", "3", "", "x", "-1", "99999999999999999999", "2000000000", "9223372036854775807", "65536"}[tp.Next(9)]
 				cells = append(cells, cqlspec.Cell{Bytes: cqlspec.EncText(k)}, cqlspec.Cell{Bytes: cqlspec.EncText(v)})
 			}
 		} else {
